@@ -61,9 +61,16 @@ def run_property(pid, tier, prog=None, cache=None):
     prog = prog or Program()
     cache = cache if cache is not None else {}
     obs, counts, rules_run, errors = evaluate(pid, tier, prog, cache)
+    counts = dict(counts)
     if errors:
-        counts = dict(counts)
         counts['analysis_errors'] = errors
+    if tier == 'thorough' and not os.environ.get('TTSA_NO_SELFVALIDATION'):
+        # informational: how the check of this property reacts to known breaking / preserving changes
+        try:
+            from selftest import validate
+            counts.update(validate.validate(pid))
+        except Exception as e:      # the self-validation must never decide the verdict
+            counts['selfvalidation'] = {'error': repr(e)}
     rc = finish(pid, tier, obs, t0, rules_run, prog, spec['explanation'], assumptions=spec['assumptions'],
                 counts=counts)
     for e in errors:
